@@ -208,6 +208,13 @@ def rules_pairs(run):
                   'NonDeterminismError must be raised exactly when the LCA of the sources is not an orthogonal state (or the sources coincide)', x)
         if 'same-source' in kinds:
             same_src_guarded = True
+    all_kinds = set()
+    for x in nd:
+        for a in guard_atoms(x, stop=L):
+            if a[0] == 'falsy' and 'OrthogonalState' in a[1]:
+                all_kinds.add('region')
+    run.check('region' in all_kinds, r, fi.short, 'NonDeterminismError when the LCA of the sources is not an orthogonal state',
+              'no rejection of two transitions whose sources are not in orthogonal regions', L)
     # conflict check for both members
     for x in cf:
         lp = q.enclosing(x, ast.For)
@@ -246,6 +253,12 @@ def rules_pairs(run):
                     good2 = good2 and len(asg) == 1 and isinstance(asg[0].targets[0], ast.Name) and expr.replace(' ', '') == \
                         ('[%s]+self._statechart.descendants_for(%s)' % (asg[0].targets[0].id, asg[0].targets[0].id))
                     good2 = good2 and all(tv + '.source' in q.unparse(o) for o in iter_origin(w))
+                    if good2:
+                        # the walk starts at the source itself (a source that is a direct child of the LCA is its own region root)
+                        child = asg[0].targets[0].id
+                        inits = [v for st, v in q.assigned_value(F, child) if not q.in_node(st, w)]
+                        run.check(len(inits) == 1 and q.unparse(inits[0]) == tv + '.source', r, fi.short, 'the region root defaults to the source itself',
+                                  'the walk towards the LCA starts from %s instead of the source' % [q.unparse(i) for i in inits], w)
                 run.check(good2, r, fi.short, 'subtree = LCA child (walk up from the source until the LCA) and its descendants',
                           'the region of a transition must be the child of the LCA on its source side', x)
     return same_src_guarded, lca_var, (t1, t2), L
